@@ -14,7 +14,7 @@ PROPERTY = "C17"
 @contextlib.contextmanager
 def no_loop(W):
     """Any touch of an asyncio loop accessor is a violation while a harness runs."""
-    names = ("get_event_loop", "get_running_loop", "new_event_loop", "_get_running_loop")
+    names = ("get_event_loop", "get_running_loop", "new_event_loop", "_get_running_loop", "current_task", "wrap_future", "ensure_future", "create_task", "gather", "sleep", "shield", "wait_for")
     saved = {}
     ev = asyncio.events
 
@@ -103,7 +103,7 @@ def h_tokens(k0: int, k1: int, k2: int, k3: int, k4: int, k5: int, k6: int, k7: 
 # ---- the other operation classes --------------------------------------------------------
 def h_tokens_misc(which: int, s: int):
     """
-    pre: 0 <= which <= 16 and 0 <= s <= 2
+    pre: 0 <= which <= 18 and 0 <= s <= 2
     post: _[0]
     post: not _[1]
     """
@@ -114,7 +114,7 @@ def h_tokens_misc(which: int, s: int):
     ok = True
     expect = None
     w = 0
-    for i in range(17):
+    for i in range(19):
         if which == i:
             w = i
 
@@ -332,6 +332,29 @@ def h_tokens_misc(which: int, s: int):
                             if _is_crosshair_control(e):
                                 raise
                             break
+            elif w == 17:  # an ExitStack left by asyncio.CancelledError that an exit callback suppresses
+                async def suppress(et, ev, tb):
+                    await sus()
+                    return isinstance(ev, asyncio.CancelledError)
+
+                async def prog():
+                    async with A.ExitStack() as st:
+                        st.push(lambda et, ev, tb: False)
+                        st.push(suppress)
+                        raise asyncio.CancelledError()
+                    return "suppressed"
+
+                r = D.call(prog())
+                expect = s
+                good = r == ("ok", "suppressed")
+            elif w == 18:  # sync() around a function returning a concurrent.futures.Future (not awaitable)
+                import concurrent.futures
+
+                fut = concurrent.futures.Future()
+                fut.set_result(5)
+                r = D.call(A.sync(lambda: fut)())
+                expect = 0
+                good = r[0] == "ok" and r[1] is fut
             elif w == 13:  # any_iter over a future-like awaitable (awaitable and iterable at once)
                 from .c19 import FutureLike
 
@@ -462,7 +485,7 @@ def _grid():
     return out
 
 
-GRID = {"h_sync_sizes": lambda: [(w, sz) for w in range(len(SIZE_OPS)) for sz in (0, 1, 5, 1000, 10001, 70000)], "h_tokens": _grid, "h_tokens_misc": lambda: [(w, s) for w in range(17) for s in range(3)]}
+GRID = {"h_sync_sizes": lambda: [(w, sz) for w in range(len(SIZE_OPS)) for sz in (0, 1, 5, 1000, 10001, 70000)], "h_tokens": _grid, "h_tokens_misc": lambda: [(w, s) for w in range(19) for s in range(3)]}
 
 TOOLS1 = ["filter", "filter_none", "filterfalse", "takewhile", "dropwhile", "pairwise", "cycle", "accumulate_f", "accumulate_f_init", "enumerate", "batched", "starmap", "islice", "iter_sentinel"]
 TOOLS2 = ["zip", "zip_longest", "map", "chain", "chain_from", "compress", "merge"]
